@@ -338,7 +338,15 @@ fn show4(p: &c4::Packet) -> String {
 
 fn show5(p: &c5::Packet) -> String {
     match p {
-        c5::Packet::ConnAck(a) => format!("connack;sp={};code={:?}", a.session_present as u8, a.code),
+        c5::Packet::ConnAck(a) => {
+            let acid = a.properties.as_ref().and_then(|p| p.assigned_client_identifier.as_ref());
+            format!(
+                "connack;sp={};code={:?}{}",
+                a.session_present as u8,
+                a.code,
+                acid.map_or(String::new(), |x| format!(";acid={}", hex(x.as_bytes())))
+            )
+        }
         c5::Packet::Publish(p) => format!(
             "publish;t={};p={};q={};pkid={};r={};d={}{}",
             hex(&p.topic), hex(&p.payload), qn5(p.qos), p.pkid, p.retain as u8, p.dup as u8, show_props(&p.properties)
